@@ -165,8 +165,17 @@ def run(chk):
                 co = p.async_body(p.bodies.get(item["def"]))
                 if co is None:
                     continue
+                co = inline.inlined(p, co)
                 chk.touched(co)
                 writes = [core.callee_of(t) for bb, t in co.calls() if names.call_is(t, "HashMap::insert", "Option::replace", "Option::insert", "HashMap::remove", "Vec::push", "Option::take", "HashMap::entry", "HashMap::clear")]
+                # `*self = value`: an assignment of the whole container through the receiver reference
+                for bb, s in co.stmts():
+                    if s["k"] == "assign" and not co.blocks[bb]["cleanup"]:
+                        pj = s["place"]["p"]
+                        if pj and pj[-1]["k"] == "deref" and all(e["k"] in ("deref", "field") for e in pj):
+                            l0, p0 = flow.norm_place(s["place"])
+                            if p0 == () or all(isinstance(e, str) and e.isdigit() for e in p0):
+                                writes.append("*self = ..")
                 chk.ob("R4 cancellation", "R4|%s::%s|atomic" % (st, item["name"]), len(co.yields()) == 0 and len(writes) == 1, where(co),
                        "suspension points: %d, container writes: %s" % (len(co.yields()), [short(w) for w in writes]))
 
